@@ -326,12 +326,14 @@ theorem C17_no_bond_type_filter :
 `.py` function and the code lines of `find_connected` / `_find_connected` / `BondList.get_all_bonds` in bonds.pyx, as
 regenerated from the source in this run, are the ones the model was written against (`Proofs/C17Source.lean`).
 Any edit of a literal, an operator, a guard, a default, the order of checks or steps, the helper called, a dtype
-choice or an exception class in these functions breaks this obligation for all inputs at once. -/
+choice or an exception class in these functions breaks this obligation for all inputs at once; so does module-level
+state next to them (a cache, a table) and any sub-extraction that did not recognise the source (`extractProblems`). -/
 theorem C17_gen_source_shape :
     Gen.C17.signatures = Source.expectedSignatures ∧
     Gen.C17.pyBodies = Source.expectedPyBodies ∧
-    Gen.C17.pyxBodies = Source.expectedPyxBodies :=
-  ⟨rfl, rfl, rfl⟩
+    Gen.C17.pyxBodies = Source.expectedPyxBodies ∧
+    Gen.C17.moduleState = [] ∧ Gen.C17.extractProblems = [] :=
+  ⟨rfl, rfl, rfl, rfl, rfl⟩
 
 /-- **Constants of the starts construction**, regenerated and plugged into the model: for both `get_*_starts` the
 array is `[first] ++ (np.where(mask)[0] + off) ++ [array.array_length()]` with the regenerated `first`, `off`, and
